@@ -143,6 +143,9 @@ func c02config(c *Check, seed int64, name string, opt EnvOpt, hs string) {
 					if opt.Cfg.StreamBuf > 0 {
 						big = 70000 // with a 64-byte read buffer every read re-parses the whole request: keep it small
 					}
+					if opt.Mode != "" && big > 1<<20 {
+						big = 1 << 20 // sanitizer builds are ~10x slower and the re-parse is quadratic
+					}
 				}
 				tok := newToken("b")
 				var key []byte
